@@ -900,6 +900,21 @@ impl<T: TypeConfig> RaftRoleState for LeaderState<T> {
             }
         }
 
+        // Writes that are committed and only wait for their apply result: LeaderState is dropped right after
+        // this drain, which would drop their senders without any answer. The entries stay committed;
+        // tell the clients that the outcome has to be re-read.
+        if !self.pending_write_apply.is_empty() {
+            warn!(
+                "Draining {} write responses awaiting apply due to role change",
+                self.pending_write_apply.len()
+            );
+            for (_, sender) in self.pending_write_apply.drain() {
+                let _ = sender.send(Err(tonic::Status::unavailable(
+                    "Leader stepped down before the apply result was available",
+                )));
+            }
+        }
+
         // Drain pending client writes (already in log, quorum not yet achieved).
         if !self.pending_client_writes.is_empty() {
             let count: usize = self.pending_client_writes.values().map(|m| m.senders.len()).sum();
